@@ -466,6 +466,34 @@ def run(ctx):
                     kinds.add("other:" + render(a)[:40])
             ctx.check(kinds == {"keep", "clear", "new"}, "random", tag + "|slot", ctx.loc(bq.fn), "slot becomes: unchanged (inactive) / None (after cancel) / Some(new id) (after place)",
                       "slot may become %s" % sorted(kinds))
+        elif form == "loop" and not [w for w in bq.writes() if canon(w.addr) == SLOT] and not [c for c in bq.calls("take") if c.args and is_slot(canon(c.args[0]))]:
+            # the slots are rebuilt into a new vector: exactly one push per visited slot, of the kept / cleared / new value
+            ow = [w for w in bq.writes(field="orders") if w.root == ("param", 1, "self")]
+            newv = ow[0].val if len(ow) == 1 else None
+            pushes_ = [c for c in bq.calls("push") if newv is not None and c.args and c.args[0] == newv]
+            kinds = set()
+            for c in pushes_:
+                a = canon(strip_unwrap(c.args[1]))
+                for alt in (a[1] if a[0] == "phi" else (a,)):
+                    if is_slot(alt):
+                        kinds.add("keep")
+                    elif alt[0] == "agg" and alt[2].endswith("Option::None"):
+                        kinds.add("clear")
+                    elif alt[0] == "agg" and alt[2].endswith("Option::Some") and any(x[0] == "call" and x[4] == "place_order" for x in walk(alt[3][0])):
+                        kinds.add("new")
+                    elif any(x[0] == "call" and x[4] == "place_order" for x in walk(alt)):
+                        kinds.add("new")
+                    else:
+                        kinds.add("other:" + render(alt)[:40])
+            outside = [x for x in range(len(bq.body.blocks)) if x not in inside]
+            once = bool(pushes_) and all(not any(p2.b != p1.b and p2.b in bq.cfg.reach_from(p1.b, cut_blocks=outside + [head]) for p2 in pushes_) for p1 in pushes_)
+            s0 = [x for x in bq.body.succs(head) if x in inside]
+            every = bool(s0) and head not in bq.cfg.reach_from(s0[0], cut_blocks=set(outside) | {p_.b for p_ in pushes_})
+            after_cancel = any(c0.b in bq.cfg.reach_from(p_.b, cut_blocks=outside + [head]) or p_.b in bq.cfg.reach_from(c0.b, cut_blocks=outside + [head]) for p_ in pushes_
+                               if any(x[0] == "agg" and x[2].endswith("Option::None") for x in walk(canon(strip_unwrap(p_.args[1])))))
+            ctx.check(kinds == {"keep", "clear", "new"} and once and every and after_cancel, "random", tag + "|slot", ctx.loc(f),
+                      "the rebuilt slot table gets exactly one entry per slot: unchanged (inactive) / None (after cancel) / Some(new id) (after place)",
+                      "rebuilt slot values %s; one push per slot: %s; every slot pushed: %s; None on the cancel path: %s" % (sorted(kinds), once, every, after_cancel))
         else:
             clears = [c for c in bq.calls("take") if c.args and is_slot(canon(c.args[0]))] + \
                      [w for w in bq.writes() if canon(w.addr) == SLOT and w.val[0] == "agg" and w.val[2].endswith("Option::None")]
